@@ -98,3 +98,23 @@ Definition stack_term (nm : snames) (io : list (name * Z)) (n : Z) (x : node) : 
   stack_port io x \/ unit_port nm io n x.
 Definition wrapper_term (nm : snames) (io : list (name * Z)) (x : node) : Prop :=
   stack_port io x \/ exists p wp k, x = NPort [] (sn_units nm) 0 p k /\ In (p, wp) io /\ 0 <= k < wp.
+
+(* the key Spec/C19Topology.v gives a terminal bit: a bit of a port of the stack is its own net key; bit k of port p of
+   unit e has the key series_key n a b e p k (KPort: a net of a stack port; KChain c k: bit k of private chain net c) *)
+Definition series_node_key (n : Z) (a b : name) (x : node) : netkey :=
+  match x with
+  | NPort _ _ e p k => series_key n a b e p k
+  | NSig _ s k => KPort s k
+  | NNc _ _ k => KPort "" k
+  end.
+
+Definition wrapper_node_key (x : node) : netkey :=
+  match x with
+  | NPort _ _ e p k => wrapper_key e p k
+  | NSig _ s k => KPort s k
+  | NNc _ _ k => KPort "" k
+  end.
+
+(* the node of the stack that carries a net key *)
+Definition key_node (nm : snames) (w : Z) (key : netkey) : node :=
+  match key with KPort p j => NSig [] p j | KChain c j => NSig [] (sn_i nm) (c * w + j) end.
